@@ -131,13 +131,93 @@ fn exec_sinks(kind: u64, calls: &[(u64, SRes, SRes, bool, bool)], variant: u64) 
     Sx::L(ev)
 }
 
+/// Stream for the background-queue scenarios: results by entry id; the first `next` call can be held at a gate.
+struct QStream { log: Arc<Mutex<Log>>, results: std::collections::HashMap<u64, SRes>, flush_ok: Vec<bool>, flushes: usize,
+                 gate: Arc<(Mutex<(bool, bool)>, std::sync::Condvar)>, hold_first: bool }
+impl EntryIoStream for QStream {
+    fn next(&mut self, entry: &impl Entry) -> Result<(), IoStreamError> {
+        let mut w = IdWriter(None);
+        entry.write(&mut w);
+        // no "id" member: the queue's own rate-limited in-band error report (allowed by C01), not an appended entry
+        let id = match w.0 { Some(id) => id, None => return Ok(()) };
+        self.log.lock().unwrap().events.push(Sx::L(vec![sx::n(0u8), sx::n(0u8), sx::n(id)]));
+        if self.hold_first {
+            self.hold_first = false;
+            let (m, cv) = &*self.gate;
+            let mut st = m.lock().unwrap();
+            st.0 = true;
+            cv.notify_all();
+            while !st.1 { st = cv.wait(st).unwrap(); }
+        }
+        match self.results.get(&id).copied().unwrap_or(SRes::Ok) {
+            SRes::Ok => Ok(()),
+            SRes::Validation => Err(IoStreamError::Validation(ValidationError::invalid("scripted"))),
+            SRes::Io => Err(IoStreamError::Io([std::io::ErrorKind::BrokenPipe, std::io::ErrorKind::Interrupted, std::io::ErrorKind::TimedOut, std::io::ErrorKind::Other][(id % 4) as usize].into())),
+        }
+    }
+    fn flush(&mut self) -> std::io::Result<()> {
+        let ok = self.flush_ok.get(self.flushes).copied().unwrap_or(true);
+        self.flushes += 1;
+        if ok { Ok(()) } else { Err(std::io::ErrorKind::Other.into()) }
+    }
+}
+
+/// kind 2: a background queue whose writer consumes every entry in its normal loop (a flush request is awaited after
+/// each append); kind 3: the writer is held inside the first `next`, everything else is queued behind it, the join handle
+/// is dropped meanwhile and the writer released — the rest is consumed around and inside the shutdown drain.
+/// Observation: the `next` calls only (flushes of a background queue are a matter of time).
+fn exec_queue(kind: u64, calls: &[(u64, SRes, SRes, bool, bool)], variant: u64) -> Sx {
+    use metrique_writer::sink::BackgroundQueueBuilder;
+    use metrique_writer::{AnyEntrySink, EntrySink};
+    let log = Arc::new(Mutex::new(Log::default()));
+    let gate = Arc::new((Mutex::new((false, false)), std::sync::Condvar::new()));
+    let stream = QStream { log: log.clone(), results: calls.iter().map(|c| (c.0, c.1)).collect(), flush_ok: calls.iter().map(|c| c.3).collect(), flushes: 0,
+                           gate: gate.clone(), hold_first: kind == 3 && !calls.is_empty() };
+    let panicked = crate::common::catch(|| {
+        let b = BackgroundQueueBuilder::new().capacity(64).flush_interval(std::time::Duration::from_millis(if variant % 2 == 0 { 1 } else { 50 }));
+        enum H { T(metrique_writer::sink::BackgroundQueue<IdEntry>), B(metrique_writer::BoxEntrySink) }
+        let (h, join) = if variant % 3 == 0 { let (q, j) = b.build::<IdEntry>(stream); (H::T(q), j) } else { let (q, j) = b.build_boxed(stream); (H::B(q), j) };
+        let append = |e: IdEntry| match &h { H::T(q) => q.append(e), H::B(b) => if variant % 3 == 1 { b.append_any(e) } else { EntrySink::<IdEntry>::append(b, e) } };
+        if kind == 2 {
+            for c in calls {
+                append(IdEntry(c.0));
+                let mut f = match &h { H::T(q) => EntrySink::<IdEntry>::flush_async(q), H::B(b) => AnyEntrySink::flush_async(b) };
+                let lim = std::time::Instant::now() + std::time::Duration::from_secs(20);
+                let w = std::task::Waker::noop();
+                let mut cx = std::task::Context::from_waker(w);
+                while std::pin::Pin::new(&mut f).poll(&mut cx).is_pending() && std::time::Instant::now() < lim { std::thread::yield_now(); }
+            }
+            drop(h);
+            drop(join);
+        } else {
+            for c in calls { append(IdEntry(c.0)); }
+            if !calls.is_empty() {
+                let (m, cv) = &*gate;
+                let mut st = m.lock().unwrap();
+                let lim = std::time::Instant::now() + std::time::Duration::from_secs(5);
+                while !st.0 && std::time::Instant::now() < lim { st = cv.wait_timeout(st, std::time::Duration::from_millis(20)).unwrap().0; }
+            }
+            std::thread::scope(|sc| {
+                let dropper = sc.spawn(move || drop(join));
+                std::thread::sleep(std::time::Duration::from_millis(3));
+                { let (m, cv) = &*gate; m.lock().unwrap().1 = true; cv.notify_all(); }
+                dropper.join().unwrap();
+            });
+            drop(h);
+        }
+    }).is_none();
+    let mut ev = std::mem::take(&mut log.lock().unwrap().events);
+    if panicked { ev.push(Sx::L(vec![sx::n(9u8)])); }
+    Sx::L(ev)
+}
+
 fn enc_sres(r: SRes) -> Sx { sx::n(match r { SRes::Ok => 0u8, SRes::Validation => 1, SRes::Io => 2 }) }
 fn dec_sres(x: &Sx) -> SRes { match x.num() { 0 => SRes::Ok, 1 => SRes::Validation, _ => SRes::Io } }
 
 fn emit_b(out: &mut Out, kind: u64, calls: &[(u64, SRes, SRes, bool, bool)], variant: u64) {
     let case = Sx::L(vec![sx::n(kind), Sx::L(calls.iter().map(|c| Sx::L(vec![sx::n(c.0), enc_sres(c.1), enc_sres(c.2), sx::boolean(c.3), sx::boolean(c.4)])).collect()), sx::n(variant)]);
-    let imp = exec_sinks(kind, calls, variant);
-    out.count(if kind == 0 { "b_immediate" } else { "b_tee" });
+    let imp = if kind >= 2 { exec_queue(kind, calls, variant) } else { exec_sinks(kind, calls, variant) };
+    out.count(match kind { 0 => "b_immediate", 1 => "b_tee", 2 => "b_queue_running", _ => "b_queue_shutdown" });
     let nt = calls.iter().any(|c| c.1 != SRes::Ok || c.2 != SRes::Ok || !c.3 || !c.4);
     out.case(&case, &imp, nt);
 }
@@ -205,5 +285,16 @@ pub fn run(ctx: &Ctx) {
         let calls: Vec<_> = (0..len).map(|i| (rng.below(50) + i as u64 * 100, *rng.pick(&all), *rng.pick(&all), rng.chance(3, 4), rng.chance(3, 4))).collect();
         emit_b(&mut outb, rng.below(2), &calls, rng.below(3));
     }
-    outb.finish("sink scenarios: scripted streams (per-entry next result Ok/Validation/Io, flush result) under FlushImmediately, AnyFlushImmediately, boxed and Tee; failing entry at every position of a 6-entry input plus random; non-trivial = at least one failing next/flush; distinct by hash");
+    // the background queue: errors while running and around / inside the shutdown drain
+    let nq = if ctx.tier_thorough { 600 } else { 80 };
+    for i in 0..nq {
+        let len = rng.range(1, 12) as usize;
+        let calls: Vec<_> = (0..len).map(|j| (100 + j as u64, *rng.pick(&[SRes::Ok, SRes::Ok, SRes::Validation, SRes::Io, SRes::Io]), SRes::Ok, rng.chance(3, 4), true)).collect();
+        emit_b(&mut outb, 2 + (i % 2), &calls, rng.below(6));
+    }
+    for pos in 0..6usize { for pos2 in pos..6usize { for r in [SRes::Validation, SRes::Io] {
+        let calls: Vec<_> = (0..7).map(|j| (200 + j as u64, if j == pos || j == pos2 { r } else { SRes::Ok }, SRes::Ok, true, true)).collect();
+        emit_b(&mut outb, 3, &calls, (pos + pos2) as u64);
+    } } }
+    outb.finish("sink scenarios: scripted streams (per-entry next result Ok/Validation/Io, flush result) under FlushImmediately, AnyFlushImmediately, boxed and Tee; failing entry at every position of a 6-entry input plus random; a background queue (typed / boxed) whose stream fails entries while the writer runs normally and around / inside the shutdown drain (writer held in the first next, join handle dropped meanwhile; one or two failing entries at every pair of positions); non-trivial = at least one failing next/flush; distinct by hash");
 }
